@@ -17,6 +17,8 @@ CLAIMED = {
          "decides the clauses C05-TS/SET/LOCK/NOBLOCK (no reachable latch wait without a pending set, set-after-bestmove, acyclic lock order, non-blocking arms) assuming the search terminates; not that each go is answered at its limit"),
  "C06": ("panic-site cone of the FEN reader with alphabet/match exhaustiveness checks, width-guard dominance, inverse letter tables extracted by path-sensitive symbolic walk",
          "decides the reader's panic-freedom on arbitrary text and rank-width rejection (C06-CONE/WIDTH) and reader/writer letter-table agreement (C06-TABLES); not the round-trip equalities as such"),
+ "C07": ("constant relations (N = variants), get_unchecked index provenance, numeric evaluation of extracted shift/mask pairs on all 64 squares, exhaustive enumeration of the evaluated magic constants (107,648 cases) by the analyser",
+         "decides 'every lookup lands inside its table' (C07-N/UNCHK/SQ/MAGIC), the wrap-mask mechanism (C07-WRAP) and filler/lookup agreement (C07-SAMEIDX); not that the ray walker and leaper generators compute the geometric definition"),
  "C08": ("guard dominance w.r.t. the PV-node flag, PV push discipline, mirrored mate-distance conversions, induction-variable provenance",
          "decides the mechanism clauses C08-PVGUARD/PVPUSH/MATEDIST/DEPTH/MATE (no hash cut-off or forward pruning in PV nodes, guarded PV extension, mate-distance pairing, depth = iteration variable, mate only with zero legal moves), not legality or length of actual lines"),
  "C09": ("Err-edge reachability at every recursive call site, poll dominance, type-level immutability",
